@@ -73,4 +73,17 @@ def handleConsumer (req : Sexp) : Sexp :=
     | .error e => mkList "err" [.atom (perrName e)]
   | none => mkList "err" [.atom "bad-request"]
 
+/-- `(extsel id (literal b) (lit "name") (opts ..) (cands (c "name" fullmatch (obj ..)) ..))` -/
+def handleExtSel (req : Sexp) : Sexp :=
+  let one (k : String) : Sexp := match fieldArgs req k with | [v] => v | _ => .atom ""
+  let o := match field? req "opts" with | some x => optsOf x | none => {}
+  let cands : List Cand := (fieldArgs req "cands").map (fun c => match args c with
+    | [n, fm, ob] => { name := sOf n, fullMatch := asBool fm, obj := objOf ob }
+    | _ => default)
+  match selectExtend (asBool (one "literal")) (sOf (one "lit")) o cands with
+  | .ok names => mkList "ok" (names.map strS)
+  | .error .notFound => mkList "err" [.atom "notFound"]
+  | .error .noMatch => mkList "err" [.atom "noMatch"]
+  | .error (.parse e) => mkList "err" [.atom (perrName e)]
+
 end Gv.Driver
